@@ -113,6 +113,10 @@ def proof_obligations(prop_id, modules=None):
     t0 = time.time()
     modules = modules or ["EduceModel.Props.%s" % prop_id]
     res = {"ok": True, "obligations": 0, "discharged": 0, "broken": [], "log": "", "theorems": []}
+    ok, log = regen_generated()
+    if not ok:
+        res["ok"] = False
+        res["broken"].append("translator (vtool extract) failed on /repo/src: " + log[-400:])
     bad = grep_forbidden()
     if bad:
         res["ok"] = False
@@ -193,6 +197,17 @@ def build_vtool():
     if rc != 0:
         raise BuildError("building the in-process harness (vtool) against /repo failed", err[-4000:])
     return os.path.join(TARGET, "debug", "vtool")
+
+
+def regen_generated():
+    """Translator: rewrite lean/EduceModel/Generated/*.lean from /repo/src. Returns (ok, log)."""
+    try:
+        exe = build_vtool()
+    except BuildError as e:
+        return False, str(e) + "\n" + e.log
+    with Lock("lake"):
+        rc, out, err = run([exe, "extract", REPO, os.path.join(LEAN, "EduceModel", "Generated")], timeout=600)
+    return rc == 0, (out + err)[-3000:]
 
 
 def scratch(prop_id):
